@@ -469,7 +469,7 @@ class Input(object):
             if self.keys:
                 self.locking_script = varstr(self.keys[0].public_byte) + b'\xac'
                 addr_data = hash160(self.keys[0].public_byte)
-            if self.signatures and not self.unlocking_script:
+            if self.signatures and (not self.unlocking_script or self.strict):
                 self.unlocking_script = varstr(self.signatures[0].as_der_encoded())
         elif self.script_type == 'p2tr':  # segwit_v1
             self.redeemscript = self.witnesses[0]
